@@ -13,6 +13,7 @@ import (
 func writeEvidence(opt *Options, w *World, results []*ObResult, confirmed []*Confirmed, unconfirmed []string, validated int, wall time.Duration) error {
 	paths, steps, asserts, discharged, trivial := 0, 0, 0, 0, 0
 	queries := 0
+	crossN := 0
 	var solverTime time.Duration
 	var samples []interface{}
 	var inconclusive, unwind, notenc []string
@@ -32,6 +33,12 @@ func writeEvidence(opt *Options, w *World, results []*ObResult, confirmed []*Con
 			if i < 3 {
 				samples = append(samples, s)
 			}
+		}
+		for i, s := range r.Cross {
+			if i < 2 {
+				samples = append(samples, s)
+			}
+			crossN++
 		}
 		for _, x := range r.Inconclusive {
 			inconclusive = append(inconclusive, r.Ob.ID()+": "+x)
@@ -90,7 +97,7 @@ func writeEvidence(opt *Options, w *World, results []*ObResult, confirmed []*Con
 	}
 	assumptions = append(assumptions,
 		"go/ssa (x/tools v0.29.0) faithfully represents the source; the gosmt interpreter implements SSA semantics (validated per run against native execution on traces_validated_against_impl vectors)",
-		"z3 4.8.12 verdicts are trusted; unknown/timeout/error answers are counted as inconclusive, never as discharged",
+		"z3 verdicts (5.1 by default, 4.8.12 / cvc5 1.0 where an obligation selects them or in the cross-check sample) are trusted; unknown/timeout/error answers are counted as inconclusive, never as discharged",
 		"a VIOLATION is reported only after the solver model reproduced against the natively compiled code")
 	viol := len(confirmed)
 	ev := map[string]interface{}{
@@ -110,6 +117,7 @@ func writeEvidence(opt *Options, w *World, results []*ObResult, confirmed []*Con
 			"discharged":                    discharged,
 			"discharged_by_constant_folding": trivial,
 			"solver_queries":                queries,
+			"cross_checked_obligations":     crossN,
 			"solver_time_s":                 round2(solverTime.Seconds()),
 			"functions_encoded":             fl,
 			"per_obligation":                obSumm,
